@@ -84,7 +84,8 @@ def c14(seed, n, pool=None):
     for i in range(n):
         g = []
         for sp in range(3):
-            c = gen.gen_case('c14-%d-%d' % (seed, i), sp, pool, want_fault=False)
+            # a quarter of the requests carry one invalid construct: refused under every spelling, or under none
+            c = gen.gen_case('c14-%d-%d' % (seed, i), sp, pool, want_fault=(i % 4 == 0))
             cid = 'c14-%d-%d' % (i, sp)
             g.append((cid, c)); cases.append((cid, c))
         groups.append(g)
